@@ -1,4 +1,5 @@
 SPECIFICATION TSpec
 CONSTANTS
   RetryOnAbort = FALSE
+  SnapshotChoices = FALSE
 INVARIANT TypeOK
